@@ -199,9 +199,13 @@ func crashRun(args []string) error {
 	}
 	// one statement; returns false when the transaction was aborted by it
 	forceKind := -1
+	growMode := os.Getenv("VERIF_CRASH_MODE") == "grow"
 	stmt := func(t *crashTxn) bool {
 		ks := keysSorted()
 		kind := rng.Intn(10)
+		if growMode && rng.Intn(3) != 0 {
+			kind = 0 // mostly inserts: the heap grows over pages that never reach the db file before the crash
+		}
 		if forceKind >= 0 {
 			kind = forceKind
 		}
@@ -216,7 +220,7 @@ func crashRun(args []string) error {
 			nextKey++
 			version++
 			pay := "s"
-			if rng.Intn(3) == 0 || (os.Getenv("VERIF_CRASH_STEPS") != "" && rng.Intn(2) == 0) {
+			if rng.Intn(3) == 0 || (os.Getenv("VERIF_CRASH_STEPS") != "" && rng.Intn(2) == 0) || (growMode && rng.Intn(4) != 0) {
 				pay = longPay[:300+rng.Intn(600)]
 			}
 			sql = fmt.Sprintf("INSERT INTO %s(k, v, p) VALUES (%d, %d, '%s');", crashTable, k, version, pay)
@@ -303,6 +307,9 @@ func crashRun(args []string) error {
 				commit(t2)
 			}
 		default: // forced checkpoint (no transaction is open here)
+			if growMode {
+				break
+			}
 			tw.Emit(map[string]interface{}{"ev": "CkptStart"})
 			e.DB.ForceCheckpointingForTestcase()
 			tw.Emit(map[string]interface{}{"ev": "CkptRet"})
